@@ -829,7 +829,8 @@ impl Check for C12 {
          over 4-18 keys whose hash the generator controls (same home slot at a capacity of the growth path 1,3,4,6,9,13,.., \
          wrap-around, full 32-bit collisions between unequal keys, the reserved hash 0) on a map with a seeded initial capacity; \
          executed fault-free on a counting stub allocator, then once for EVERY allocation index inside a fallible operation with \
-         that allocation failing, then on SysAllocator and on the AllocProxy of a live VM. distinct_nontrivial counts distinct \
+         that allocation failing, then on SysAllocator and on the AllocProxy of a live VM; the whole again (fault-free and every fail-at-j) with key / value \
+         types without drop glue, and fault-free with keys only / values only having drop glue. distinct_nontrivial counts distinct \
          (capacity,count) states reached + distinct (history, fail index) pairs whose failure fired + histories with growth or \
          removal of a present key."
             .to_string()
